@@ -122,9 +122,7 @@ def jac_domain(cls, P, x):
         return "reciprocal" if (s > 1e-9 * abs(P["nu"]) + 8 * E * abs(x) and 1e-300 < s < 1e300) else None
     if cls == "Sinh":
         u = (x - P["nu"]) * P["scale"]
-        if not (fin(u) and abs(u) < 1e300):
-            return None
-        return "sinh" if abs(u) < 1e154 else "u_squared_overflow"
+        return "sinh" if (fin(u) and abs(u) < 1e300) else None
     if cls == "Manly":
         lam, xm = P["lam"], P["xmax"]
         if xm != xm:
@@ -485,8 +483,7 @@ def body(ctx):
                     j1, j2 = jmap.get(cand[i], NAN), jmap.get(cand[k], NAN)
                     if cls != "Logit" and not junction and f2 - f1 <= slack and fin(j1) and fin(j2) and j1 > 0 and j2 > 0 and \
                             min(j1, j2) * (cand[k] - cand[i]) > 8 * slack and not (cls == "Log" and P["bf"] < 0) and \
-                            jac_domain(cls, P, cand[i]) not in (None, "u_squared_overflow") and \
-                            jac_domain(cls, P, cand[k]) not in (None, "u_squared_overflow") and \
+                            jac_domain(cls, P, cand[i]) is not None and jac_domain(cls, P, cand[k]) is not None and \
                             (cls != "BoxCox2sym" or cand[i] * cand[k] > 0):
                         # the Jacobian is monotone between two points of one branch (every class but Logit), so the exact
                         # images differ by at least min(j1, j2) (x2 - x1): far more than the evaluation error here
